@@ -5,7 +5,7 @@ inputs, to the corresponding definitions of the Coq model (ring / field).  Fail 
 translator does not recognise is a failed obligation."""
 import os, re
 from harness import lib
-from harness.translate import cshared as cexpr, pyexpr
+from harness.translate import cshared as cexpr, pyexpr, inject_desc
 
 DADI = os.path.join(lib.REPO, 'dadi')
 AX = 'xyzab'
@@ -264,6 +264,27 @@ def python_obligations(ctx, files):
         ctx.obligation('translate _Vfunc/_Mfunc1D-3D (Integration.py)', True, 'translator')
     except (pyexpr.Refuse, SyntaxError, OSError) as e:
         ctx.obligation('translate _Vfunc/_Mfunc1D-3D (Integration.py)', False, 'translator', str(e))
+    # --- mutation influx: _inject_mutations_{1..5}D = inject_amount of the model, guarded by exactly the population's own flags
+    body.append('From Dadi Require Import Model.NDSweep.')
+    for d in range(1, 6):
+        try:
+            args, ents = inject_desc.extract(path, d)
+            gr = inject_desc.GRIDS[:d]
+            if [e['k'] for e in ents] != list(range(d)):
+                raise pyexpr.Refuse('populations injected: %r' % [e['k'] for e in ents])
+            for e in ents:
+                k = e['k']
+                want = [] if d == 1 else (['frozen%d' % (k + 1), 'nomut%d' % (k + 1)] if d == 2 else ['frozen%d' % (k + 1)])
+                if e['guard'] != want:
+                    raise pyexpr.Refuse('population %d is guarded by %r, expected %r' % (k + 1, e['guard'], want))
+                hyps = ' -> '.join(['nthF %s 1%%nat <> 0' % g for g in gr] + ['nthF %s 2%%nat - nthF %s 0%%nat <> 0' % (gr[k], gr[k])])
+                body.append('Lemma ob_inject_%dD_%d : forall (%s : list R) (theta0 dt : R), %s -> %s = inject_amount [%s] %d %d theta0 dt.' % (
+                    d, k + 1, ' '.join(gr), hyps, e['term'], '; '.join(gr), d, k))
+                body.append('Proof. intros. unfold inject_amount, nprod, npow. cbn [seq map fold_right nth Nat.eqb]. nR. field. repeat split; assumption. Qed.')
+                names.append('inject_%dD_%d' % (d, k + 1))
+            ctx.obligation('translate _inject_mutations_%dD (guards and influx formula)' % d, True, 'translator')
+        except (pyexpr.Refuse, SyntaxError, OSError) as e:
+            ctx.obligation('translate _inject_mutations_%dD (guards and influx formula)' % d, False, 'translator', str(e))
     files.append(('C02_ob_python', '\n'.join(body) + '\n', names))
 
 _CACHE = {}
